@@ -69,6 +69,7 @@ type Term struct {
 	id   int32
 	sv    *Term // the single variable this term depends on (nil if none or several)
 	multi bool  // depends on more than one variable, or on an uninterpreted function
+	sh    uint64 // structural hash, independent of term ids (same across engines)
 }
 
 type termKey struct {
@@ -118,6 +119,7 @@ func (ts *TermStore) mk(k termKey, a, b, d *Term) *Term {
 	}
 	ts.nextID++
 	t := &Term{op: k.op, w: k.w, c: k.c, a: a, b: b, d: d, name: k.name, id: ts.nextID}
+	t.sh = structHash(k.op, k.w, k.c, k.name, a, b, d)
 	if k.op == opVar {
 		t.sv = t
 	} else {
@@ -772,3 +774,67 @@ func b2u(b bool) uint64 {
 }
 
 var _ = bits.Len
+
+// termString renders a term as an s-expression up to the given depth.
+func termString(t *Term, depth int) string {
+	if t == nil {
+		return ""
+	}
+	switch t.op {
+	case opConst:
+		return constStr(t)
+	case opVar:
+		return t.name
+	}
+	if depth == 0 {
+		return fmt.Sprintf("t%d", t.id)
+	}
+	switch t.op {
+	case opExtract:
+		return fmt.Sprintf("(extract[%d:%d] %s)", uint64(t.w)+t.c-1, t.c, termString(t.a, depth-1))
+	case opZExt:
+		return fmt.Sprintf("(zext%d %s)", t.w, termString(t.a, depth-1))
+	case opSExt:
+		return fmt.Sprintf("(sext%d %s)", t.w, termString(t.a, depth-1))
+	case opUF:
+		return "(" + t.name + " ...)"
+	case opIte:
+		return fmt.Sprintf("(ite %s %s %s)", termString(t.a, depth-1), termString(t.b, depth-1), termString(t.d, depth-1))
+	case opNot, opNeg, opBNot:
+		return fmt.Sprintf("(%s %s)", opNames[t.op], termString(t.a, depth-1))
+	}
+	return fmt.Sprintf("(%s %s %s)", opNames[t.op], termString(t.a, depth-1), termString(t.b, depth-1))
+}
+
+func mix(h, x uint64) uint64 {
+	h ^= x + 0x9e3779b97f4a7c15 + (h << 6) + (h >> 2)
+	return h * 0xff51afd7ed558ccd
+}
+
+func structHash(op Op, w uint8, c uint64, name string, a, b, d *Term) uint64 {
+	h := mix(uint64(op)+1, uint64(w))
+	h = mix(h, c)
+	for i := 0; i < len(name); i++ {
+		h = mix(h, uint64(name[i]))
+	}
+	ha, hb, hd := uint64(1), uint64(2), uint64(3)
+	if a != nil {
+		ha = a.sh
+	}
+	if b != nil {
+		hb = b.sh
+	}
+	if d != nil {
+		hd = d.sh
+	}
+	switch op {
+	case opAdd, opMul, opAnd, opOr, opXor, opEq, opBAnd, opBOr:
+		// commutative: child order depends on term ids
+		h = mix(h, ha+hb)
+		h = mix(h, ha^hb)
+	default:
+		h = mix(h, ha)
+		h = mix(h, hb)
+	}
+	return mix(h, hd)
+}
